@@ -9,6 +9,7 @@ from typing import Any, Dict, List, Optional, Set, Tuple, Union
 
 from .ast import (
     BreakStmt,
+    ContinueStmt,
     ButtonDecl,
     ButtonPoll,
     CatchClause,
@@ -2388,6 +2389,13 @@ def _parse_simple_lines(
             if main_loop and loop_depth == 1:
                 raise ValueError("cannot break out of the main loop()")
             body.append(BreakStmt())
+            i += 1
+            continue
+
+        if line == "continue":
+            if loop_depth <= 0:
+                raise ValueError("'continue' outside loop is not supported")
+            body.append(ContinueStmt(restart_pass=main_loop and loop_depth == 1))
             i += 1
             continue
 
